@@ -2,6 +2,7 @@ package govc
 
 import (
 	"fmt"
+	"go/token"
 	"go/types"
 	"strings"
 
@@ -15,31 +16,132 @@ import (
 // generator along the same pass that generates the other obligations; loop-header phis are seeded by a
 // flow-insensitive pre-pass (an over-approximation).
 
-type bagState struct {
+// bagSt is the flow-sensitive ghost state of the discipline at one program point: the SSA values that currently are
+// bags (or point to an object that holds one), and the cells (Alloc / FreeVar / Global / parameter roots) through
+// which a bag can currently be reached.
+type bagSt struct {
 	vals  map[ssa.Value]bool
-	cells map[ssa.Value]bool // Alloc / FreeVar / Global roots holding a bag
-	seed  map[ssa.Value]bool // flow-insensitive "may ever be a bag"
+	cells map[cellKey]bool
 }
 
-func rootOf(addr ssa.Value) ssa.Value {
-	for {
+// cellKey: a root cell and the field of the object it holds (or -1: the cell itself / the whole object).
+type cellKey struct {
+	r ssa.Value
+	f int
+}
+
+func newBagSt() *bagSt { return &bagSt{vals: map[ssa.Value]bool{}, cells: map[cellKey]bool{}} }
+
+// cellHas: a bag can be reached through the address (exactly that field, the whole object, or - for the object
+// itself - any of its fields).
+func (s *bagSt) cellHas(addr ssa.Value) bool {
+	k := rootField(addr)
+	if s.cells[k] || s.cells[cellKey{k.r, -1}] {
+		return true
+	}
+	if k.f < 0 {
+		for c, v := range s.cells {
+			if v && c.r == k.r {
+				return true
+			}
+		}
+	}
+	return false
+}
+
+// has: the value is a bag, or a pointer / interface through which one can be reached.
+func (s *bagSt) has(v ssa.Value) bool {
+	if s.vals[v] {
+		return true
+	}
+	if mi, ok := v.(*ssa.MakeInterface); ok {
+		return s.has(mi.X)
+	}
+	if _, isC := v.(*ssa.Const); isC {
+		return false
+	}
+	if isPtrT(v.Type()) && s.cellHas(v) {
+		return true
+	}
+	return false
+}
+
+func (s *bagSt) cellSet(addr ssa.Value)   { s.cells[rootField(addr)] = true }
+func (s *bagSt) cellClear(addr ssa.Value) { delete(s.cells, rootField(addr)) }
+
+func (s *bagSt) copy() *bagSt {
+	n := newBagSt()
+	for k, v := range s.vals {
+		if v {
+			n.vals[k] = true
+		}
+	}
+	for k, v := range s.cells {
+		if v {
+			n.cells[k] = true
+		}
+	}
+	return n
+}
+
+// join adds o into s; reports whether s grew.
+func (s *bagSt) join(o *bagSt) bool {
+	ch := false
+	for k, v := range o.vals {
+		if v && !s.vals[k] {
+			s.vals[k] = true
+			ch = true
+		}
+	}
+	for k, v := range o.cells {
+		if v && !s.cells[k] {
+			s.cells[k] = true
+			ch = true
+		}
+	}
+	return ch
+}
+
+type bagState struct {
+	*bagSt                              // the state at the current program point of the encoding pass
+	in     map[*ssa.BasicBlock]*bagSt // fixpoint: state at block entry
+}
+
+// rootOf: the cell an address is reached from. Loads of local cells are looked through, so that "loop.Exits" names
+// the same root wherever the captured variable loop is read (an over-approximation: the cell stands for everything
+// reachable from it).
+func rootOf(addr ssa.Value) ssa.Value { return rootField(addr).r }
+
+func rootField(addr ssa.Value) cellKey {
+	f := -1
+	for depth := 0; depth < 32; depth++ {
 		switch a := addr.(type) {
 		case *ssa.FieldAddr:
+			f = a.Field
 			addr = a.X
 			continue
 		case *ssa.IndexAddr:
 			if _, ok := a.X.Type().Underlying().(*types.Slice); ok {
-				return a.X
+				return cellKey{a.X, -1}
 			}
 			addr = a.X
 			continue
+		case *ssa.UnOp:
+			if a.Op == token.MUL {
+				switch a.X.(type) {
+				case *ssa.Alloc, *ssa.FreeVar, *ssa.Global, *ssa.FieldAddr:
+					addr = a.X
+					continue
+				}
+			}
 		}
-		return addr
+		return cellKey{addr, f}
 	}
+	return cellKey{addr, f}
 }
 
 func (e *FnEnc) deterministic() bool {
-	return e.con != nil && e.con.Deterministic && e.prop == "C10"
+	return e.con != nil && e.con.Deterministic && e.con.DetProps[e.prop]
 }
 
 func (e *FnEnc) inMapRange(b *ssa.BasicBlock) bool {
@@ -60,93 +162,56 @@ func (e *FnEnc) inMapRange(b *ssa.BasicBlock) bool {
 	return false
 }
 
-// bagInit runs the flow-insensitive pre-pass.
+// bagInit computes the fixpoint of the discipline's transfer function over the control-flow graph (a plain forward
+// data-flow analysis: join = union, sorts kill), so that loop-header states are exact for the encoding pass.
 func (e *FnEnc) bagInit() {
-	e.bags = &bagState{vals: map[ssa.Value]bool{}, cells: map[ssa.Value]bool{}, seed: map[ssa.Value]bool{}}
+	e.bags = &bagState{bagSt: newBagSt(), in: map[*ssa.BasicBlock]*bagSt{}}
 	if !e.deterministic() {
 		return
 	}
-	seedCells := map[ssa.Value]bool{}
-	// values that are sorted somewhere in the function count as sequences for the loops that walk them (the
-	// flow-sensitive pass decides whether the sort really precedes the walk)
-	sorted := map[ssa.Value]bool{}
-	for _, b := range e.fn.Blocks {
-		for _, in := range b.Instrs {
-			if c, ok := in.(*ssa.Call); ok {
-				if f := c.Call.StaticCallee(); f != nil {
-					switch calleeName(f) {
-					case "sort.Strings", "sort.Slice", "sort.SliceStable":
-						v := c.Call.Args[0]
-						if mi, ok := v.(*ssa.MakeInterface); ok {
-							v = mi.X
-						}
-						sorted[v] = true
-					}
-				}
-			}
-		}
-	}
+	entry := newBagSt()
 	for _, p := range e.con.BagParams {
 		for _, q := range e.fn.Params {
 			if q.Name() == p {
-				e.bags.seed[q] = true
-				e.bags.vals[q] = true
+				entry.vals[q] = true
 			}
 		}
 	}
-	changed := true
-	for changed {
-		changed = false
-		set := func(v ssa.Value) {
-			if !e.bags.seed[v] {
-				e.bags.seed[v] = true
-				changed = true
-			}
+	for _, b := range e.fn.Blocks {
+		e.bags.in[b] = newBagSt()
+	}
+	e.bags.in[e.fn.Blocks[0]].join(entry)
+	work := []*ssa.BasicBlock{e.fn.Blocks[0]}
+	queued := map[*ssa.BasicBlock]bool{e.fn.Blocks[0]: true}
+	seen := map[*ssa.BasicBlock]bool{}
+	for iter := 0; len(work) > 0 && iter < 100000; iter++ {
+		b := work[0]
+		work = work[1:]
+		queued[b] = false
+		st := e.bags.in[b].copy()
+		for _, in := range b.Instrs {
+			e.bagTransfer(st, in, false)
 		}
-		for _, b := range e.fn.Blocks {
-			for _, in := range b.Instrs {
-				switch i := in.(type) {
-				case *ssa.Call:
-					if bi, ok := i.Call.Value.(*ssa.Builtin); ok && bi.Name() == "append" {
-						if e.inMapRange(b) || e.inBagRange(b, func(v ssa.Value) bool { return e.bags.seed[v] && !sorted[v] }) || e.bags.seed[i.Call.Args[0]] || e.bags.seed[i.Call.Args[1]] || (e.con.Concurrent && e.fromFreeVar(i.Call.Args[0])) {
-							set(i)
-						}
-					} else if e.calleeReturnsBag(&i.Call) {
-						set(i)
-					}
-				case *ssa.Extract:
-					if e.bags.seed[i.Tuple] {
-						if c, ok := i.Tuple.(*ssa.Call); ok && e.calleeBagResult(&c.Call, i.Index) {
-							set(i)
-						}
-					}
-				case *ssa.Phi:
-					for _, ed := range i.Edges {
-						if e.bags.seed[ed] {
-							set(i)
-						}
-					}
-				case *ssa.Slice:
-					if e.bags.seed[i.X] {
-						set(i)
-					}
-				case *ssa.Store:
-					if e.bags.seed[i.Val] {
-						r := rootOf(i.Addr)
-						if !seedCells[r] {
-							seedCells[r] = true
-							changed = true
-						}
-					}
-				case *ssa.UnOp:
-					if i.Op.String() == "*" && seedCells[rootOf(i.X)] {
-						if _, ok := i.Type().Underlying().(*types.Slice); ok {
-							set(i)
-						}
-					}
+		first := !seen[b]
+		seen[b] = true
+		for _, s := range b.Succs {
+			if e.bags.in[s].join(st) || (first && !seen[s]) {
+				if !queued[s] {
+					queued[s] = true
+					work = append(work, s)
 				}
 			}
 		}
+	}
+}
+
+// bagEnter: the encoding pass starts block b.
+func (e *FnEnc) bagEnter(b *ssa.BasicBlock) {
+	if e.bags == nil || !e.deterministic() {
+		return
+	}
+	if st := e.bags.in[b]; st != nil {
+		e.bags.bagSt = st.copy()
 	}
 }
 
@@ -223,57 +288,88 @@ func (e *FnEnc) isBag(v ssa.Value) bool { return e.bags.vals[v] }
 func (e *FnEnc) bagViolation(what string, in ssa.Instruction) {
 	e.oblige(&Obligation{Name: fmt.Sprintf("order.%s@%s", mangle(what), e.posOf(in)), Kind: "determinism",
 		Clause: what + ": the element order depends on map iteration or goroutine completion order and no total sort intervenes",
-		Tags: []string{"C10.order"}, Guard: e.curGuard, Goal: "false", Pos: e.posOf(in)})
+		Tags: []string{e.prop + ".order"}, Guard: e.curGuard, Goal: "false", Pos: e.posOf(in)})
 }
 
-// bagInstr updates the bag state for one instruction (called after the instruction has been encoded).
+// bagInstr updates the bag state for one instruction of the encoding pass (after the instruction has been encoded)
+// and generates the discipline's obligations.
 func (e *FnEnc) bagInstr(in ssa.Instruction) {
 	if e.bags == nil || !e.deterministic() {
 		return
 	}
-	b := e.bags
+	e.bagTransfer(e.bags.bagSt, in, true)
+}
+
+func isSliceT(t types.Type) bool { _, ok := t.Underlying().(*types.Slice); return ok }
+func isPtrT(t types.Type) bool   { _, ok := t.Underlying().(*types.Pointer); return ok }
+func isCarrierT(t types.Type) bool {
+	switch t.Underlying().(type) {
+	case *types.Slice, *types.Pointer, *types.Map:
+		return true
+	}
+	return false
+}
+
+// bagTransfer is the transfer function; with report it also emits obligations (encoding pass only).
+func (e *FnEnc) bagTransfer(b *bagSt, in ssa.Instruction, report bool) {
+	tainted := func(v ssa.Value) bool {
+		if b.vals[v] {
+			return true
+		}
+		if mi, ok := v.(*ssa.MakeInterface); ok && b.vals[mi.X] {
+			return true
+		}
+		return false
+	}
 	switch i := in.(type) {
 	case *ssa.Phi:
-		if e.loops[i.Block()] != nil {
-			b.vals[i] = b.seed[i]
-			return
-		}
 		for _, ed := range i.Edges {
 			if b.vals[ed] {
 				b.vals[i] = true
 			}
 		}
 	case *ssa.Slice:
-		if b.vals[i.X] {
+		if b.vals[i.X] || (isPtrT(i.X.Type()) && b.cellHas(i.X)) {
 			b.vals[i] = true
 		}
 	case *ssa.Extract:
 		if c, ok := i.Tuple.(*ssa.Call); ok && e.calleeBagResult(&c.Call, i.Index) {
 			b.vals[i] = true
 		}
+	case *ssa.MakeInterface:
+		if b.vals[i.X] {
+			b.vals[i] = true
+		}
 	case *ssa.Store:
-		r := rootOf(i.Addr)
-		if _, isSlice := i.Val.Type().Underlying().(*types.Slice); isSlice {
-			if b.vals[i.Val] && e.con.Concurrent && e.fromFreeVar(i.Addr) {
+		if isCarrierT(i.Val.Type()) {
+			if report && isSliceT(i.Val.Type()) && b.vals[i.Val] && e.con.Concurrent && e.fromFreeVar(i.Addr) {
 				e.bagViolation("a concurrently running function stores an unordered collection into shared state", i)
 			}
-			if b.vals[i.Val] {
-				b.cells[r] = true
-			} else if _, direct := i.Addr.(*ssa.Alloc); direct {
-				b.cells[r] = false // the cell is overwritten by a sequence
+			if b.has(i.Val) {
+				b.cellSet(i.Addr)
+			} else if _, direct := i.Addr.(*ssa.Alloc); direct && isSliceT(i.Val.Type()) {
+				b.cellClear(i.Addr) // the cell is overwritten by a sequence
 			}
+		}
+	case *ssa.MapUpdate:
+		if tainted(i.Value) || b.has(i.Value) {
+			if u, ok := i.Map.(*ssa.UnOp); ok {
+				b.cellSet(u.X)
+			}
+			b.vals[i.Map] = true
 		}
 	case *ssa.UnOp:
-		if i.Op.String() == "*" {
-			if _, ok := i.Type().Underlying().(*types.Slice); ok && b.cells[rootOf(i.X)] {
-				b.vals[i] = true
-			}
+		if i.Op == token.MUL && isCarrierT(i.Type()) && b.cellHas(i.X) {
+			b.vals[i] = true
 		}
 	case *ssa.Call:
-		e.bagCall(i)
+		e.bagCall(b, i, report)
 	case *ssa.Return:
+		if !report {
+			return
+		}
 		e.oblige(&Obligation{Name: "order.return-checked@" + e.posOf(i), Kind: "determinism", Clause: "no unordered collection reaches this return (order discipline: bags, total sorts)",
-			Tags: []string{"C10.order"}, Guard: e.curGuard, Goal: "true", Pos: e.posOf(i)})
+			Tags: []string{e.prop + ".order"}, Guard: e.curGuard, Goal: "true", Pos: e.posOf(i)})
 		for k, r := range i.Results {
 			allowed := false
 			for _, br := range e.con.BagResults {
@@ -284,22 +380,20 @@ func (e *FnEnc) bagInstr(in ssa.Instruction) {
 			if allowed {
 				continue
 			}
-			if b.vals[r] {
+			if isSliceT(r.Type()) && b.vals[r] {
 				e.bagViolation(fmt.Sprintf("result %d is returned as an unordered collection", k), i)
-			}
-			if _, isPtr := r.Type().Underlying().(*types.Pointer); isPtr && b.cells[rootOf(r)] {
+			} else if isCarrierT(r.Type()) && b.has(r) {
 				e.bagViolation(fmt.Sprintf("result %d points to an object holding an unordered collection", k), i)
 			}
 		}
 	}
 }
 
-func (e *FnEnc) bagCall(i *ssa.Call) {
-	b := e.bags
+func (e *FnEnc) bagCall(b *bagSt, i *ssa.Call, report bool) {
 	c := &i.Call
 	if bi, ok := c.Value.(*ssa.Builtin); ok {
 		if bi.Name() == "append" {
-			if e.inMapRange(i.Block()) || e.inBagRange(i.Block(), func(v ssa.Value) bool { return b.vals[v] }) || b.vals[c.Args[0]] || b.vals[c.Args[1]] || (e.con.Concurrent && e.fromFreeVar(c.Args[0])) {
+			if e.inMapRange(i.Block()) || e.inBagRange(i.Block(), func(v ssa.Value) bool { return b.vals[v] && isSliceT(v.Type()) }) || b.has(c.Args[0]) || b.has(c.Args[1]) || (e.con.Concurrent && e.fromFreeVar(c.Args[0])) {
 				b.vals[i] = true
 			}
 		}
@@ -311,14 +405,14 @@ func (e *FnEnc) bagCall(i *ssa.Call) {
 		name = calleeName(f)
 	}
 	cleanse := func(v ssa.Value) {
-		b.vals[v] = false
+		delete(b.vals, v)
 		if u, ok := v.(*ssa.UnOp); ok {
-			b.cells[rootOf(u.X)] = false
+			b.cellClear(u.X)
 		}
 		if mi, ok := v.(*ssa.MakeInterface); ok {
-			b.vals[mi.X] = false
+			delete(b.vals, mi.X)
 			if u, ok := mi.X.(*ssa.UnOp); ok {
-				b.cells[rootOf(u.X)] = false
+				b.cellClear(u.X)
 			}
 		}
 	}
@@ -331,7 +425,7 @@ func (e *FnEnc) bagCall(i *ssa.Call) {
 		if mi, ok := c.Args[0].(*ssa.MakeInterface); ok {
 			sl = mi.X
 		}
-		if sl != nil && b.vals[sl] {
+		if report && sl != nil && b.vals[sl] {
 			e.sortTotality(i, sl)
 		}
 		cleanse(c.Args[0])
@@ -342,6 +436,9 @@ func (e *FnEnc) bagCall(i *ssa.Call) {
 			b.vals[i] = true
 		}
 	}
+	if !report {
+		return
+	}
 	// a bag handed to an encoder or printer reaches the output in its accidental order
 	if strings.Contains(name, "encoding/json") || (c.IsInvoke() && c.Method.Name() == "Encode") {
 		for _, a := range c.Args {
@@ -349,10 +446,10 @@ func (e *FnEnc) bagCall(i *ssa.Call) {
 			if mi, ok := a.(*ssa.MakeInterface); ok {
 				v = mi.X
 			}
-			if b.vals[v] || b.cells[rootOf(v)] {
+			if b.vals[v] || b.cellHas(v) {
 				e.bagViolation("an unordered collection is encoded", i)
 			}
-			if u, ok := v.(*ssa.UnOp); ok && b.cells[rootOf(u.X)] {
+			if u, ok := v.(*ssa.UnOp); ok && b.cellHas(u.X) {
 				e.bagViolation("an object holding an unordered collection is encoded", i)
 			}
 		}
@@ -410,5 +507,5 @@ func (e *FnEnc) sortTotality(i *ssa.Call, sl ssa.Value) {
 		n, n, less("a!t", "b!t"), less("b!t", "a!t"), row, row)
 	e.oblige(&Obligation{Name: "order.sort.total@" + e.posOf(i), Kind: "determinism",
 		Clause: "the comparator used to sort an unordered collection is total on its elements (ties would keep an accidental order)",
-		Tags: []string{"C10.order"}, Guard: e.curGuard, Goal: goal, Pos: e.posOf(i)})
+		Tags: []string{e.prop + ".order"}, Guard: e.curGuard, Goal: goal, Pos: e.posOf(i)})
 }
